@@ -5,7 +5,7 @@
    code emits NOW.  Not part of coq/theories. *)
 From Coq Require Import List NArith ZArith QArith Bool Lia Lqa.
 Import ListNotations.
-From FP Require Import Lin Blocks BlocksProofs PyRt PyLin.
+From FP Require Import Lin LinEquiv Blocks BlocksProofs PyRt PyLin.
 From FPGen Require Import Gen_binprod.
 Local Open Scope Q_scope.
 
@@ -46,6 +46,6 @@ Print Assumptions gen_binprod_exact.
 
 (* non-vacuity: the four rows for b = V 1 [], c = V 2 [], p = V 3 [], bounds 1 .. 5, printed in canonical form *)
 Example gen_binprod_example :
-  map canon_row (binprod_rows (V 1 []) (V 2 []) (V 3 []) 1 5) =
-  map canon_row (mcc_rows (V 1 []) (V 2 []) (V 3 []) 1 5).
+  LinEquiv.milp_equiv_b {| cols := []; rows := binprod_rows (V 1 []) (V 2 []) (V 3 []) 1 5; obj := []; maximize := false |}
+                         {| cols := []; rows := mcc_rows (V 1 []) (V 2 []) (V 3 []) 1 5; obj := []; maximize := false |} = true.
 Proof. vm_compute. reflexivity. Qed.
